@@ -277,6 +277,55 @@ func runC13(c *Ctx) {
 		}
 	}
 
+	// ---- JSON strings: the literal written for a text, and the value read from a literal, against the model ----------
+	{
+		alphabet := []rune{'a', 'Z', '0', ' ', '"', '\\', '/', '\n', '\r', '\t', '\b', '\f', 0x01, 0x1f, 0x7f, '<', '>', '&', '\'', 'é', 'ß', '中', 0x2028, 0x2029, 0x1F600, 0x10FFFF, 0xFFFD, 0xFEFF, 0x00A0, 'u', 'n'}
+		pieces := []string{`\u00e9`, `\ud83d\ude00`, `\ud83d`, `\ude00`, `\ud83d\u0041`, `\/`, `\x41`, `\u12`, `\uD83D\uDE00`, `\u0000`, "\x01", `\"`, `\\`, `\b`, `\f`, `\n`, `\a`, `\u2028`, "é", "x", `\ud83d\ud83d\ude00`, `\udbff\udfff`}
+		kn := c.N(3000, 120000)
+		for i := 0; i < kn; i++ {
+			var sb strings.Builder
+			for k, m := 0, r.Range(0, 8); k < m; k++ {
+				sb.WriteRune(Pick(r, alphabet))
+			}
+			text := sb.String()
+			desc := map[string]any{"text": text}
+			var written string
+			okW := !c.Guard("K-jsonstr", "panic:json-string", desc, func() {
+				t, e := types.ToXJSON(types.NewXText(text))
+				if e == nil {
+					written = t.Native()
+				}
+			})
+			if okW {
+				c.Model("jsonstr-enc", "jsonstr enc "+hx(text), "ok "+hx(written), desc)
+			}
+			// a literal: the written one, or one assembled from escapes of every kind (valid and not)
+			lit := written
+			if i%2 == 1 {
+				var lb strings.Builder
+				lb.WriteByte('"')
+				for k, m := 0, r.Range(0, 5); k < m; k++ {
+					lb.WriteString(Pick(r, pieces))
+				}
+				if !r.Chance(5) {
+					lb.WriteByte('"')
+				}
+				lit = lb.String()
+			}
+			d2 := map[string]any{"literal": lit}
+			exp := "err"
+			if !c.Guard("K-jsonstr", "panic:json-string", d2, func() {
+				v := types.JSONToXValue([]byte(lit))
+				if t, ok := v.(*types.XText); ok {
+					exp = "ok " + hx(t.Native())
+				}
+			}) {
+				c.Eval(fmt.Sprintf("jsonstr|%v|%d", exp == "err", len(lit)/8))
+				c.Model("jsonstr-dec", "jsonstr dec "+hx(lit), exp, d2)
+			}
+		}
+	}
+
 	// ---- JSON -----------------------------------------------------------------------------------
 	n = c.N(4000, 200000)
 	for i := 0; i < n; i++ {
